@@ -526,7 +526,40 @@ func families(run *vk.Run) []*family {
 		}, nil, []int{1, 2, 1}, []int{1, 2, 2}),
 		keysFamily(run),
 		shapesFamily(run),
+		ireqFamily(run),
 	}
+}
+
+// ireqFamily: S-ireq - an interface field that is a @requires field on one
+// implementing entity (its input lives in another subgraph). Only the
+// non-interface fields move between subgraphs: a subgraph that returns the
+// interface must hold complete implementers.
+func ireqFamily(run *vk.Run) *family {
+	s := fedlab.SIReq()
+	f := &family{name: "S-ireq", s: s, u: fedlab.SIReqUniverse(s), schema: mustSchema(s.SDL())}
+	d := s.Distributable()
+	f.base = make([]int, len(d))
+	mk := func(n, price, watts int, name string) *fedlab.Layout {
+		return fedlab.ByType(s, n, func(r fedlab.FieldRef) int {
+			switch r.String() {
+			case "Product.price":
+				return price
+			case "Gadget.watts":
+				return watts
+			}
+			return 0
+		}, name)
+	}
+	f.layouts = []*fedlab.Layout{
+		fedlab.NewLayout(s, 1, make([]int, len(d)), "mono"),
+		mk(2, 1, 1, "near0"), // decorated in both tiers
+		mk(2, 1, 0, "price-remote"),
+		mk(2, 0, 1, "watts-remote"),
+		mk(3, 1, 2, "three"),
+	}
+	f.base = f.layouts[1].OwnerVector()
+	f.ops = fedlab.GenOps(fedlab.GenConfig{Schema: f.schema, Widths: vk.Pick(run, []int{1, 2, 1}, []int{1, 3, 1})}, "query")
+	return f
 }
 
 // shapesFamily: S-shapes - entities below lists of lists and non-null wrappers
